@@ -458,6 +458,16 @@ class ScriptedGenerator(SproutCandidatesGenerator):
                         individuals=[pop[i] for i in order[:c]],
                         features=DemeFeatures(nbc_mean_distance=self.features),
                     )
+        order = self.w.desc.get("gen_order")
+        if order and len(out) > 1:
+            # a user-written generator need not list the parents level by level: 'reverse' = deepest parents first,
+            # 'interleave' = youngest deme first, then alternately from both ends
+            keys = list(out)
+            if order == "reverse":
+                keys = keys[::-1]
+            else:
+                keys = [keys[-1 - i // 2] if i % 2 == 0 else keys[i // 2] for i in range(len(keys))]
+            out = {k: out[k] for k in keys}
         return out
 
 
